@@ -1,6 +1,7 @@
 import FluentVerif.Driver.Render
 import FluentVerif.Driver.Tree
 import FluentVerif.Forward.Spec
+import FluentVerif.Proto.Chunk
 /-! driver operations on the codec: DEC (decode) -/
 namespace FV.Driver
 
@@ -231,6 +232,62 @@ def opRT (args obs : List String) : Option DecOut :=
             some { corr := corr, fails := f01 ++ f02 ++ f09, branch := s!"rt.{name}.{ep}{dp}.ok" }
         | [] => none
     | _, _ => none
+  | _ => none
+
+end FV.Driver
+
+namespace FV.Driver
+open FV.Spec in
+/-- the option map is one GetChunk is specified for: string keys, none empty, no key twice -/
+def optionKeysWellFormed : Obj → Bool
+  | .map kvs =>
+    let keys := (pairs (objsToList kvs)).map (·.1)
+    keys.all (fun k => match k with | .str s => !s.isEmpty | _ => false) &&
+    keys.all (fun k => (keys.filter (fun k' => match k, k' with | .str a, .str b => a == b | _, _ => false)).length == 1)
+  | .nil => true
+  | _ => false
+
+open FV.Spec in
+/-- well-formed Forward-protocol message of any of the four modes, 2/3/4 elements, any record content -/
+def wellFormedMode (o : Obj) : Bool :=
+  match o with
+  | .arr xs =>
+    match objsToList xs with
+    | [.str _, .int _, .map _] => true
+    | [.str _, .int _, .map _, opt] => optionKeysWellFormed opt
+    | [.str _, .ext t d, .map _] => t == 0 && d.length == 8
+    | [.str _, .ext t d, .map _, opt] => t == 0 && d.length == 8 && optionKeysWellFormed opt
+    | [.str _, .arr _] => true
+    | [.str _, .arr _, opt] => optionKeysWellFormed opt
+    | [.str _, .bin _] => true
+    | [.str _, .bin _, opt] => optionKeysWellFormed opt
+    | _ => false
+  | _ => false
+
+/-- `CHUNK hex => ok hex | err` -/
+def opCHUNK (args obs : List String) : Option DecOut :=
+  match args with
+  | [cls, hx] =>
+    match parseHex hx with
+    | none => none
+    | some b =>
+      let m := match getChunk b with
+        | .ok c _ => s!"ok {toHex c}"
+        | .err => "err"
+        | .panic _ => "panic"
+      let go := " ".intercalate obs
+      let f10 := if go.startsWith "panic" || go.startsWith "hang" then ["C10 " ++ go] else []
+      let (wf, f11) := match parse b with
+        | some (o, []) =>
+          if wellFormedMode o then
+            let want := match Spec.chunkOf o with
+              | some c => s!"ok {toHex c}"
+              | none => "err"
+            (true, if go == want then [] else [s!"C11 option-map-chunk=[{want}] GetChunk=[{go}]"])
+          else (false, [])
+        | _ => (false, [])
+      some { corr := if m == go then none else some s!"model=[{m}] go=[{go}]", fails := f10 ++ f11,
+             branch := s!"chunk.{cls}.{if wf then "wf" else "other"}.{(go.splitOn " ").headD "?"}" }
   | _ => none
 
 end FV.Driver
